@@ -80,12 +80,14 @@ func msgClass(r any) string {
 }
 
 type c18Result struct {
-	ok    bool   // decoded without error
-	err   error  // decode error
-	fp    string // fingerprint on success (bytecode targets)
-	panic string // non-empty: panic key
-	pmsg  string
-	alloc uint64
+	ok       bool   // decoded without error
+	err      error  // decode error
+	fp       string // fingerprint on success (bytecode targets)
+	panic    string // non-empty: panic key
+	pmsg     string
+	alloc    uint64
+	allocSet bool
+	second   bool // the panic struck in the second decode into one receiver
 }
 
 var allocSample = []metrics.Sample{{Name: "/gc/heap/allocs:bytes"}}
@@ -133,8 +135,13 @@ func c18Decode(target int, data []byte, mm *ugo.ModuleMap, rd io.Reader) (res c1
 			site := panicSite("github.com/ozanh/ugo/encoder", "github.com/ozanh/ugo")
 			res.panic = "panic:" + site + ":" + msgClass(r)
 			res.pmsg = fmt.Sprint(r)
+			if res.second {
+				res.pmsg += " (in the second UnmarshalBinary into the same receiver)"
+			}
 		}
-		res.alloc = heapAllocs() - before
+		if !res.allocSet {
+			res.alloc = heapAllocs() - before
+		}
 	}()
 	switch target {
 	case c18TargetFrom:
@@ -154,6 +161,14 @@ func c18Decode(target int, data []byte, mm *ugo.ModuleMap, rd io.Reader) (res c1
 		if err == nil {
 			res.ok = true
 			res.fp = sim.Fingerprint((*ugo.Bytecode)(&bc))
+		}
+		// history on the receiver: the same bytes decoded once more into the value that has just been decoded into
+		// (always after a success, for a quarter of the inputs after a failure): an error or a value again, never a panic
+		if err == nil || len(data)%4 == 0 {
+			res.alloc, res.allocSet = heapAllocs()-before, true // the allocation bound is per decode
+			res.second = true
+			_ = bc.UnmarshalBinary(data)
+			res.second = false
 		}
 	case c18TargetStream:
 		// an io.Reader that cannot report its length (file, connection, bufio): 7-byte reads
